@@ -146,6 +146,8 @@ class BatonLock:
 
     def acquire(self, blocking=True, timeout=-1):
         me = self.who()
+        if not blocking and self.held is not None:
+            return False                         # a try-lock finds the mutex taken
         while self.held is not None:
             saved = self.baton.budget.get(me, 0)
             self.baton._park(me, blocked=True)
